@@ -183,6 +183,11 @@ def run(tier, replay):
         cj, oj = os.path.join(wd, "cases.json"), os.path.join(wd, "out.json")
         json.dump(cases, open(cj, "w"))
         rc, out = vlib.go_test(wd, "./internal/server/handlers", OVS, "TestC06Server", env={"VERIF_CASES": cj, "VERIF_OUT": oj}, timeout=3300)
+        if rc != 0 and vlib.died_in_dtail(out) >= 0:
+            i = vlib.died_in_dtail(out)
+            V.violation("the server process died during a mapreduce session: " + out[i:i + 100].splitlines()[0], {"output": out[i:i + 1800]})
+            return V.finish({"states": states, "transitions": trans, "traces_validated_against_impl": 0, "evaluations": 0, "distinct_nontrivial": 0,
+                             "rule": "the run ended with the death of the server process", "exhaustive": False, "samples": []}, [])
         if rc != 0 or not os.path.exists(oj):
             raise vlib.Inconclusive("server harness failed\n" + out[-2500:])
         results = json.load(open(oj))
